@@ -48,7 +48,7 @@ def main():
     pids = claimed()
     res = {}
     base = {}
-    base = run_all(pids)
+    base = {} if os.environ.get("MATRIX_OWN_ONLY") else run_all(pids)
     res["unchanged"] = base
     print("unchanged", base, flush=True)
     for sid in ids:
@@ -61,7 +61,8 @@ def main():
             continue
         row = {}
         try:
-            row = run_all(pids)
+            own = [p for p in pids if p == meta["property"][:3]]
+            row = run_all(own if (os.environ.get("MATRIX_OWN_ONLY") and own) else pids)
         finally:
             subprocess.run(["git", "-C", REPO, "checkout", "--", "."])
         res[sid] = {"target": meta["property"], "checks": row}
